@@ -51,6 +51,7 @@ type Fixture struct {
 	gateMu    sync.Mutex
 	gateG     uint64
 	gateFn    func(kind, key string) error
+	gateAll   func(kind, key string) error
 
 	// base state (JSON) of every configuration section, captured after bootstrap
 	baseSchedule, baseReplication, basePDServer, baseReplMode, baseLabel []byte
@@ -297,12 +298,90 @@ func goid() uint64 {
 
 func (f *Fixture) clusterGate(kind, key string) error {
 	f.gateMu.Lock()
-	fn, g := f.gateFn, f.gateG
+	fn, g, all := f.gateFn, f.gateG, f.gateAll
 	f.gateMu.Unlock()
+	if all != nil {
+		if err := all(kind, key); err != nil {
+			return err
+		}
+	}
 	if fn == nil || (kind != "save" && kind != "remove") || goid() != g {
 		return nil
 	}
 	return fn(kind, key)
+}
+
+// ClusterGateAll installs fn as a gate for EVERY operation of EVERY goroutine on the cluster-level
+// storage (fn runs on the goroutine that issues the operation and may block it: a scheduling point for
+// background goroutines of the live server such as coordinator.run). nil removes it.
+func (f *Fixture) ClusterGateAll(fn func(kind, key string) error) {
+	f.gateMu.Lock()
+	f.gateAll = fn
+	f.gateMu.Unlock()
+}
+
+// ClusterBase is the cluster-level storage below the fault wrapper (for the oracle's own reads).
+func (f *Fixture) ClusterBase() kv.Base { return f.clusterKV.Base() }
+
+// OnCoordinatorRun reports whether the calling goroutine is inside cluster.(*coordinator).run.
+func OnCoordinatorRun() bool {
+	buf := make([]byte, 16<<10)
+	n := runtime.Stack(buf, false)
+	return bytes.Contains(buf[:n], []byte("cluster.(*coordinator).run("))
+}
+
+// CoordinatorStarting reports whether coordinator.run has not returned yet (it is waiting for the
+// cluster to be "prepared", or creating its schedulers, or writing the schedule configuration back).
+func CoordinatorStarting() bool { return coordinatorStarting() }
+
+// RestartCluster stops the raft cluster and starts it again the way the leader callback does
+// (RaftCluster.Start(server)): stores, regions and rules are loaded from the cluster-level storage, the
+// loaded regions have no leader yet, so the new coordinator waits (up to 5 minutes) for region
+// heartbeats before it starts its schedulers. The server's storage must be the cluster-level one.
+func (f *Fixture) RestartCluster() error {
+	rc := f.Svr.GetRaftCluster()
+	if rc == nil {
+		return fmt.Errorf("cluster not running")
+	}
+	f.Svr.SetStorage(f.store)
+	rc.Stop()
+	// The region cache (BasicCluster) belongs to the server object and survives the restart with the leader the
+	// region reported earlier; a newly started process has only what storage holds: the region without a leader.
+	// Put it back into that state, otherwise the next heartbeat is not "new" and the coordinator waits 5 minutes.
+	peer := &metapb.Peer{Id: 3, StoreId: 1, Role: metapb.PeerRole_Voter}
+	f.Svr.GetBasicCluster().PutRegion(core.NewRegionInfo(&metapb.Region{Id: 2, Peers: []*metapb.Peer{peer}}, nil))
+	if err := rc.Start(f.Svr); err != nil {
+		return fmt.Errorf("restart of the raft cluster: %v", err)
+	}
+	if f.Svr.GetRaftCluster() == nil {
+		return fmt.Errorf("raft cluster did not come back")
+	}
+	// the coordinator goroutine is started by Start; give it a moment to show up
+	for i := 0; i < 200 && !coordinatorStarting(); i++ {
+		time.Sleep(10 * time.Millisecond)
+	}
+	return nil
+}
+
+// HeartbeatBootstrapRegion reports the bootstrap region (id 2, one voter on store 1) with a leader.
+func (f *Fixture) HeartbeatBootstrapRegion() error {
+	peer := &metapb.Peer{Id: 3, StoreId: 1, Role: metapb.PeerRole_Voter}
+	return f.cluster.HandleRegionHeartbeat(core.NewRegionInfo(&metapb.Region{Id: 2, Peers: []*metapb.Peer{peer}}, peer))
+}
+
+// WaitCoordinator waits until coordinator.run has returned (the caller has seen it running before; the
+// served scheduler list may legitimately be empty, so registered schedulers are no criterion).
+func (f *Fixture) WaitCoordinator(d time.Duration) error {
+	deadline := time.Now().Add(d)
+	for {
+		if f.Svr.GetRaftCluster() != nil && !coordinatorStarting() {
+			return nil
+		}
+		if time.Now().After(deadline) {
+			return fmt.Errorf("coordinator did not start its schedulers within %v", d)
+		}
+		time.Sleep(20 * time.Millisecond)
+	}
 }
 
 // ClusterGate installs fn as a gate for the WRITES (save, remove) that the CALLING goroutine issues to
